@@ -170,7 +170,7 @@ dataLoop:
 		}
 		newOrder := ordertypes.Order{
 			Creator:   msg.Creator,
-			Owner:     order.Owner,
+			Owner:     metadata.Owner,
 			Provider:  msg.Provider,
 			Cid:       order.Cid,
 			Duration:  proposal.Duration,
